@@ -95,16 +95,27 @@ impl<F: FileSystem> Loader<F> {
     {
         let path: Cow<'_, Path> = self.filesystem.canonicalize_path(path);
         if include_stack.iter().any(|x| x.as_path() == path.as_ref()) {
+            #[cfg(okane_verif)]
+            crate::verif::emit(|| verif_event("cycle", &path, include_stack.len(), 0, ""));
             return Err(LoadError::IncludeCycle(path.into_owned()).into());
         }
         include_stack.push(path.clone().into_owned());
-        let content = self
-            .filesystem
-            .file_content_utf8(&path)
-            .map_err(|err| LoadError::IO(err, path.clone().into_owned()))?;
+        let content = self.filesystem.file_content_utf8(&path).map_err(|err| {
+            #[cfg(okane_verif)]
+            crate::verif::emit(|| verif_event("io", &path, include_stack.len(), 0, ""));
+            LoadError::IO(err, path.clone().into_owned())
+        })?;
+        #[cfg(okane_verif)]
+        crate::verif::emit(|| verif_event("enter", &path, include_stack.len(), 0, ""));
+        #[cfg(okane_verif)]
+        let mut verif_pos = 0usize;
         for parsed in parse::parse_ledger(parse_options, &content) {
             let (ctx, entry) =
                 parsed.map_err(|e| LoadError::Parse(e, path.clone().into_owned()))?;
+            #[cfg(okane_verif)]
+            {
+                verif_pos += 1;
+            }
             match entry {
                 syntax::LedgerEntry::Include(p) => {
                     let include_path: PathBuf = p.0.as_ref().into();
@@ -120,6 +131,10 @@ impl<F: FileSystem> Loader<F> {
                         })?;
                     let mut paths: Vec<PathBuf> = self.filesystem.glob(&target)?;
                     if paths.is_empty() {
+                        #[cfg(okane_verif)]
+                        crate::verif::emit(|| {
+                            verif_event("notfound", &path, include_stack.len(), verif_pos, "")
+                        });
                         return Err(LoadError::IO(
                             std::io::Error::new(
                                 std::io::ErrorKind::NotFound,
@@ -130,17 +145,53 @@ impl<F: FileSystem> Loader<F> {
                         .into());
                     }
                     paths.sort_unstable();
+                    #[cfg(okane_verif)]
+                    crate::verif::emit(|| {
+                        let matches: Vec<String> = paths
+                            .iter()
+                            .map(|x| format!("{:?}", x.display().to_string()))
+                            .collect();
+                        verif_event(
+                            "descend",
+                            &path,
+                            include_stack.len(),
+                            verif_pos,
+                            &format!(",\"matches\":[{}]", matches.join(",")),
+                        )
+                    });
                     for path in &paths {
                         self.load_impl(parse_options, path, include_stack, callback)?;
                     }
                     Ok(())
                 }
-                _ => callback(&path, &ctx, &entry),
+                _ => {
+                    #[cfg(okane_verif)]
+                    crate::verif::emit(|| {
+                        verif_event("deliver", &path, include_stack.len(), verif_pos, "")
+                    });
+                    callback(&path, &ctx, &entry)
+                }
             }?;
         }
         include_stack.pop();
+        #[cfg(okane_verif)]
+        crate::verif::emit(|| verif_event("return", &path, include_stack.len(), 0, ""));
         Ok(())
     }
+}
+
+/// One loader event for conformance checking: `depth` is the length of the include stack,
+/// `pos` the 1-based position of the entry within its file.
+#[cfg(okane_verif)]
+fn verif_event(ev: &str, path: &Path, depth: usize, pos: usize, extra: &str) -> String {
+    format!(
+        "{{\"ev\":{:?},\"path\":{:?},\"depth\":{},\"pos\":{}{}}}",
+        ev,
+        path.display().to_string(),
+        depth,
+        pos,
+        extra
+    )
 }
 
 /// Interface to abstract file system.
